@@ -26,7 +26,7 @@ def one_run(emd, variant, x, nens, nproc, mode, level, seed, schedule, tdir, cap
     fn = getattr(emd.sift, variant)
     kw = dict(nensembles=nens, nprocesses=nproc, noise_mode=mode, ensemble_noise=LEVELS[level],
               max_imfs=(1 if variant == 'complete_ensemble_sift' else cap))
-    rec = {'variant': variant, 'nens': nens, 'nproc': nproc, 'mode': mode, 'level': level, 'seed': seed,
+    rec = {'kind': 'run', 'variant': variant, 'nens': nens, 'nproc': nproc, 'mode': mode, 'level': level, 'seed': seed,
            'scripted': int(schedule is not None), 'schedule': schedule or {}, 'raised': 0, 'ids': [], 'neg_ok': [], 'nonzero': [],
            'mean_ok': 0, 'zero_equal': 0, 'npids': 0, 'uncorrelated': 1}
     X2 = x[:, None]
@@ -90,6 +90,53 @@ def one_run(emd, variant, x, nens, nproc, mode, level, seed, schedule, tdir, cap
     return rec
 
 
+def ceemd_layers(emd, x, nens, nproc, mode, seed, tdir, cap=3):
+    """complete_ensemble_sift with several components: every layer must average fresh decompositions of (residual +- that layer's
+    member noise); members are grouped into layers by the order in which each member's calls were traced"""
+    rec = {'kind': 'layers', 'variant': 'complete_ensemble_sift', 'nens': nens, 'nproc': nproc, 'mode': mode, 'seed': seed, 'raised': 0,
+           'ncols': 0, 'nlayers_traced': 0, 'ids': [], 'neg_ok': [], 'mean_ok': [], 'uncorr': []}
+    X2 = x[:, None]
+    with NoiseTrace(emd, tdir) as T:
+        np.random.seed(seed)
+        out = core.guarded(emd.sift.complete_ensemble_sift, x, nensembles=nens, nprocesses=nproc, noise_mode=mode, max_imfs=cap, _timeout=180)
+        ev = T.read()
+    if isinstance(out, str):
+        rec['raised'] = 1
+        rec['err'] = out
+        return rec
+    imf = out[0]
+    rec['ncols'] = int(imf.shape[1])
+    per = 2 if mode == 'flip' else 1
+    byjob = {}
+    for e in sorted(ev, key=lambda e: e['t']):
+        byjob.setdefault(e['job'], []).append(e)
+    nl = min(len(v) for v in byjob.values()) // per if byjob else 0
+    rec['nlayers_traced'] = nl if all(len(v) == nl * per for v in byjob.values()) else -1
+    for k in range(min(nl, imf.shape[1])):
+        R = X2 - imf[:, :k].sum(axis=1)[:, None]
+        table, ids, members, noises = {}, [], [], []
+        neg = 1
+        for j in sorted(byjob):
+            a = np.array(byjob[j][k * per]['x']).reshape(X2.shape)
+            ids.append(table.setdefault(hashlib.sha1((a - R).tobytes()).hexdigest(), len(table) + 1))
+            noises.append((a - R)[:, 0])
+            m = emd.sift.sift(a, max_imfs=1)
+            if per == 2:
+                b = np.array(byjob[j][k * per + 1]['x']).reshape(X2.shape)
+                neg &= int(np.allclose(a - R, R - b, rtol=0, atol=1e-10 * (1 + np.abs(a - R).max())))
+                m = (m + emd.sift.sift(b, max_imfs=1)) / 2
+            members.append(m)
+        want = np.mean(members, axis=0)
+        rec['ids'].append(ids)
+        rec['neg_ok'].append(neg)
+        rec['mean_ok'].append(int(np.allclose(imf[:, k:k + 1], want, rtol=0, atol=1e-10 * (1 + np.abs(want).max()))))
+        cc = np.corrcoef(np.array(noises)) if len(noises) > 1 and all(np.std(q) > 0 for q in noises) else np.eye(len(noises))
+        # (only the first layer's noise is white: later layers carry the slow remainders of each member's noise, whose sample
+        #  correlation over 96 points has too few degrees of freedom for an independence test)
+        rec['uncorr'].append(int(k > 0 or np.max(np.abs(cc - np.eye(len(noises)))) < 0.6))
+    return rec
+
+
 def _job(args):
     emd = core.import_emd()
     tdir, items = args
@@ -99,6 +146,8 @@ def _job(args):
         rng = np.random.RandomState(sig)
         x = np.sin(np.arange(96) * (.15 + .1 * rng.rand())) + .3 * rng.randn(96)
         out.append(one_run(emd, variant, x, nens, nproc, mode, level, seed, schedule, tdir))
+        if variant == 'complete_ensemble_sift' and schedule is None and level > 0 and nens >= 2:
+            out.append(ceemd_layers(emd, x, nens, nproc, mode, seed, tdir))
     return out
 
 
@@ -152,19 +201,22 @@ def run():
     recs = [r for part in core.pmap(_job, jobs, workers=8) for r in part]
     bad = core.validate_records(ctx, 'EnsembleRec', recs, name='EnsembleRec')
     for r in recs:
-        if r['npids'] > 1 and r['level'] > 0:
+        if r['kind'] == 'run' and r['npids'] > 1 and r['level'] > 0:
             ctx.nontrivial((r['variant'], r['nens'], r['nproc'], r['mode'], r['seed'], r['scripted']))
     ctx.sample({k: v for k, v in recs[0].items()})
-    ctx.sample({k: v for k, v in [r for r in recs if not r['scripted']][0].items()})
+    ctx.sample({k: v for k, v in [r for r in recs if r['kind'] == 'run' and not r['scripted']][0].items()})
+    lay = [r for r in recs if r['kind'] == 'layers']
+    if lay:
+        ctx.sample(lay[0])
     ctx.leg('B', scripted_runs=nB, schedules_used=len(scheds_b))
-    ctx.leg('C', real_pool_runs=len(grid), multi_process_runs=sum(1 for r in recs if r['npids'] > 1))
+    ctx.leg('C', real_pool_runs=len(grid), multi_process_runs=sum(1 for r in recs if r.get('npids', 0) > 1), ceemd_layerwise_runs=len(lay))
     seen = {}
     for r, clause in bad:
-        seen.setdefault((clause, r['variant'], r['scripted']), []).append(r)
+        seen.setdefault((clause, r['variant'], r.get('scripted', 0)), []).append(r)
     for (clause, variant, scripted), rs in seen.items():
         r = rs[0]
         ctx.violation('C08: %s violated by %s (%s pool) on %d runs; first: nensembles=%d nprocesses=%d mode=%s level=%s ids=%s neg_ok=%s mean_ok=%s schedule=%s %s' % (
-            clause, variant, 'scripted' if scripted else 'real', len(rs), r['nens'], r['nproc'], r['mode'], LEVELS[r['level']], r['ids'], r['neg_ok'], r['mean_ok'], r['schedule'], r.get('err', '')),
+            clause, variant, 'scripted' if scripted else 'real', len(rs), r['nens'], r['nproc'], r['mode'], LEVELS.get(r.get('level'), '-'), r['ids'], r['neg_ok'], r['mean_ok'], r.get('schedule'), r.get('err', '')),
             {'clause': clause, 'record': r})
     ctx.cov['rule'] = ('Leg B: (assignment, completion-order) schedules exported by TLC for %d jobs x %d workers forced onto ensemble_sift and complete_ensemble_sift through a forking '
                        'scripted pool; Leg C: real multiprocessing pool over nensembles 1..8 x nprocesses 1..8 (quick: a sample) x {single, flip} x noise levels {0, 0.05, 1}; '
